@@ -74,9 +74,15 @@ func BytePattern(t *rapid.T, label string) *big.Int {
 // Raw256 draws any value in [0, 2^256) from the boundary-biased mixture
 // relative to modulus m (not reduced).
 func Raw256(t *rapid.T, m *big.Int, label string) *big.Int {
-	strat := rapid.IntRange(0, 16).Draw(t, label+"_strat")
+	strat := rapid.IntRange(0, 17).Draw(t, label+"_strat")
 	v := new(big.Int)
 	switch strat {
+	case 17: // squaring this value has hostile Montgomery quotient digits (see MontQuotientOperand)
+		if sq, ok := MontQuotientOperand(t, m, nil, label+"_msq"); ok {
+			v = ref.FromM(sq, m)
+		} else {
+			v = Uniform256(t, label)
+		}
 	case 16: // +-2^t * (limb-sparse value), also counted down from m: what shift-and-subtract algorithms reduce to
 		v = SparseShifted(t, m, label)
 	case 0:
